@@ -55,6 +55,7 @@ struct Thr {
     bool cv_timed_out = false;
     bool changed_since_report = true;
     bool at_start = false;      // released from the start barrier and no operation performed yet
+    uint64_t* pending_inv = nullptr;         // invocation stamp to be taken when this thread executes its next step (stamp_inv)
     void (*pending_fn)( void* ) = nullptr;   // asynchronous handler to run on this participant (signal delivery, 4.6)
     void* pending_arg = nullptr;
     int   pending_from = -1;
@@ -297,8 +298,30 @@ void switch_to( int next )
     }
 }
 
-// the heart: pick who runs next (or an environment value)
+// blocks the harness reported as released in this execution (region_freed): an instrumented access inside one is a violation
+struct FreedRegion { uintptr_t lo, hi; const char* what; };
+constexpr unsigned MAXFREED = 256;
+FreedRegion g_freed[MAXFREED];
+unsigned g_nfreed = 0;
+
+inline void flush_inv( Thr* me )
+{
+    if ( me && me->pending_inv ) { *me->pending_inv = ++S.clock; me->pending_inv = nullptr; }
+}
+
+unsigned decide_impl( Reason r, unsigned n );
+
+// every scheduling decision goes through here; when it returns the calling thread is about to execute its next step, which is
+// the moment a lazily stamped invocation is recorded (see stamp_inv)
 unsigned decide( Reason r, unsigned n = 0 )
+{
+    unsigned v = decide_impl( r, n );
+    flush_inv( tl_self );
+    return v;
+}
+
+// the heart: pick who runs next (or an environment value)
+unsigned decide_impl( Reason r, unsigned n )
 {
     Thr* me = tl_self;
     uint16_t mask = runnable_mask();
@@ -488,7 +511,24 @@ int self_id() noexcept
 
 uint64_t stamp() noexcept
 {
+    flush_inv( tl_self );
     return ++S.clock;
+}
+
+void region_freed( const void* p, size_t n, const char* what ) noexcept
+{
+    if ( !tl_self || S.phase == P_OFF || !p || !n ) return;
+    if ( g_nfreed >= MAXFREED ) die( 2, "too-many-freed-regions", "more than %u released blocks in one execution", MAXFREED );
+    g_freed[g_nfreed].lo = uintptr_t( p ); g_freed[g_nfreed].hi = uintptr_t( p ) + n; g_freed[g_nfreed].what = what;
+    ++g_nfreed;
+}
+
+void stamp_inv( uint64_t* slot ) noexcept
+{
+    Thr* me = tl_self;
+    if ( !me || S.phase != P_EXPLORE || S.in_handler ) { *slot = ++S.clock; return; }
+    flush_inv( me );
+    *slot = 0; me->pending_inv = slot;
 }
 
 void point( const void* addr, Kind k ) noexcept
@@ -496,6 +536,13 @@ void point( const void* addr, Kind k ) noexcept
     Thr* me = tl_self;
     if ( !me || S.phase == P_OFF ) return;
     ++S.steps;
+    if ( g_nfreed && addr ) {
+        uintptr_t a = uintptr_t( addr );
+        for ( unsigned i = 0; i < g_nfreed; ++i )
+            if ( a >= g_freed[i].lo && a < g_freed[i].hi )
+                die( 1, "use-after-free", "use after free: t%d performs %s at %p, inside the block [%p, +%zu) that was released (%s)", me->id, kind_name( k ), addr,
+                     (void*) g_freed[i].lo, size_t( g_freed[i].hi - g_freed[i].lo ), g_freed[i].what );
+    }
     if ( S.phase != P_EXPLORE || S.in_handler ) return;
     if ( ++S.explore_steps > S.horizon )
         die( 2, "horizon", "step horizon %u hit by t%d at %s %p", S.horizon, me->id, kind_name( k ), addr );
@@ -865,6 +912,7 @@ void execute( cdsmc::Scenario const& sc, std::vector<Dev> const& devs, int bound
 {
     // reset
     S.nthr = 0; S.cur = 0; S.pointno = 0; S.steps = 0; S.explore_steps = 0; S.clock = 0;
+    g_nfreed = 0;
     memset( S.lower, 0, sizeof S.lower ); S.any_lower = false;
     S.ndevs = devs.size(); S.devpos = 0;
     if ( devs.size() > MAXDEVS ) die( 2, "too-many-deviations", "%zu deviations", devs.size());
